@@ -3,6 +3,7 @@ package interp
 import (
 	"fmt"
 	"go/token"
+	"go/types"
 	"strings"
 
 	"golang.org/x/tools/go/ssa"
@@ -386,17 +387,51 @@ func symFmt(format string, args []value, fr *frame) value {
 				v = call(fr.i, fr, 0, fr.i.prog.MethodValue(sel), []value{a.v})
 			}
 		}
+		if verb == 'w' {
+			verb = 'v' // %w formats like %v; the wrapping itself is done by the Errorf stub
+		}
 		switch x := v.(type) {
 		case symstr:
 			out = append(out, fmtSymBytes(fr, []value(x), verb)...)
 		case []value:
-			if anySym(x) {
+			isBytes := false
+			if sl, ok := a.t.Underlying().(*types.Slice); ok {
+				if bt, ok := sl.Elem().Underlying().(*types.Basic); ok && bt.Kind() == types.Uint8 {
+					isBytes = true
+				}
+			}
+			switch {
+			case isBytes && anySym(x):
 				out = append(out, fmtSymBytes(fr, x, verb)...)
-			} else {
+			case isBytes:
 				for _, b := range []byte(fmt.Sprintf(spec+string(verb), bytesOf(x))) {
 					out = append(out, b)
 				}
+			case verb == 'v' || verb == 's':
+				// slice of other elements: [e1 e2 ...]
+				out = append(out, byte('['))
+				sl, _ := a.t.Underlying().(*types.Slice)
+				for k, e := range x {
+					if k > 0 {
+						out = append(out, byte(' '))
+					}
+					var et types.Type
+					if sl != nil {
+						et = sl.Elem()
+					}
+					if ie, ok := e.(iface); ok {
+						et, e = ie.t, ie.v
+					}
+					part := symFmt("%v", []value{iface{t: et, v: e}}, fr)
+					pc, _ := strCells(part)
+					out = append(out, pc...)
+				}
+				out = append(out, byte(']'))
+			default:
+				panic(abortPath{"engine: unsupported format verb %" + string(verb) + " for a slice"})
 			}
+		case structure, *value, array, *omap, tuple:
+			panic(abortPath{fmt.Sprintf("engine: unsupported fmt argument %T for %%%c", x, verb)})
 		case sym:
 			if verb == 'd' && spec == "%03" {
 				// three decimal digits of a value assumed in [0,999]
